@@ -9,7 +9,7 @@ use vmodel::val::GenCfg;
 
 pub fn c12(ctx: &Ctx, subj: &dyn DynSubject, ty: &Ty, rep: &mut Report) {
     let strat = strategy_for(ctx, ty, GenCfg { max_len: 6, long: false });
-    crate::runner::run_cases(ctx, subj, rep, strat, ctx.cases, &|v, log| {
+    crate::runner::run_cases_pre(ctx, subj, rep, &sweep_vals(ctx, ty), strat, ctx.cases, &|v, log| {
         self_check(subj, v)?;
         let (bytes, events) = traced(subj, v)?;
         // every alignment the serializer performed: (aligned stream position, unit)
